@@ -1001,7 +1001,7 @@ pub fn run(ctx: &Ctx) -> Report {
     let r = run_items(ctx, "tables", vec![()], |_, stats| check_tables(stats));
     report.absorb(r);
     let roles: Vec<Role> = Role::all().filter(|r| !matches!(r, Role::Integer(..) | Role::Float(..))).collect();
-    let per_role = ctx.tier.pick(400, 20_000);
+    let per_role = ctx.tier.pick(1_200, 20_000);
     for role in roles {
         if gen_args(role, &mut Tape::new(&[0; 32])).is_none() {
             continue;
@@ -1009,15 +1009,15 @@ pub fn run(ctx: &Ctx) -> Report {
         let r = run_tapes(ctx, &format!("direct-{}", model_name(role)), per_role, 48, |tape, stats| check_direct(role, tape, stats));
         report.absorb(r);
     }
-    let cases = ctx.tier.pick(500, 12_000);
+    let cases = ctx.tier.pick(1_200, 12_000);
     let r = run_tapes(ctx, "caller-programs", cases, 400, |tape, stats| check_callers(ctx, tape, stats));
     report.absorb(r);
-    let cases = ctx.tier.pick(500, 12_000);
+    let cases = ctx.tier.pick(1_200, 12_000);
     let r = run_tapes(ctx, "io-scenarios", cases, 64, |tape, stats| check_io(ctx, tape, stats));
     report.absorb(r);
     let sites = role_sites(&ctx.repo_root.join("lib/std/builtin"));
     report.extra.insert("role_annotation_sites".into(), json!(sites.len()));
-    let cases = ctx.tier.pick(400, 8_000);
+    let cases = ctx.tier.pick(1_000, 8_000);
     let sites_ref = &sites;
     let r = run_tapes(ctx, "signature-mutations", cases, 16, |tape, stats| check_signature_mutation(ctx, sites_ref, tape, stats));
     report.absorb(r);
